@@ -196,36 +196,40 @@ impl Deref for Packet {
 }
 
 fn packet(i: &[u8]) -> nom::IResult<&[u8], (u8, Packet)> {
-    nom::combinator::map(
-        nom::sequence::pair(
-            nom::multi::fold_many0(
-                fullpacket,
-                || (0u8, None),
-                |(seq, pkt): (_, Option<Packet>), (nseq, p)| {
-                    let pkt = if let Some(mut pkt) = pkt {
-                        assert_eq!(nseq, seq.wrapping_add(1));
-                        pkt.extend(p);
-                        Some(pkt)
-                    } else {
-                        Some(Packet(Vec::from(p)))
-                    };
-                    (nseq, pkt)
-                },
-            ),
-            onepacket,
-        ),
-        move |(full, last)| {
-            let seq = last.0;
-            let pkt = if let Some(mut pkt) = full.1 {
-                assert_eq!(last.0, full.0.wrapping_add(1));
-                pkt.extend(last.1);
-                pkt
-            } else {
-                Packet(Vec::from(last.1))
-            };
-            (seq, pkt)
-        },
-    )(i)
+    // a message of U24_MAX bytes or more arrives as a run of full packets followed by a shorter
+    // one, with consecutive sequence ids
+    fn out_of_order(i: &[u8]) -> nom::Err<nom::error::Error<&[u8]>> {
+        nom::Err::Failure(nom::error::Error::new(i, nom::error::ErrorKind::Verify))
+    }
+
+    let mut rest = i;
+    let mut full: Option<(u8, Packet)> = None;
+    while let Ok((r, (nseq, p))) = fullpacket(rest) {
+        full = Some(match full {
+            Some((seq, mut pkt)) => {
+                if nseq != seq.wrapping_add(1) {
+                    return Err(out_of_order(rest));
+                }
+                pkt.extend(p);
+                (nseq, pkt)
+            }
+            None => (nseq, Packet(Vec::from(p))),
+        });
+        rest = r;
+    }
+
+    let (r, last) = onepacket(rest)?;
+    let pkt = match full {
+        Some((seq, mut pkt)) => {
+            if last.0 != seq.wrapping_add(1) {
+                return Err(out_of_order(rest));
+            }
+            pkt.extend(last.1);
+            pkt
+        }
+        None => Packet(Vec::from(last.1)),
+    };
+    Ok((r, (last.0, pkt)))
 }
 
 #[cfg(test)]
